@@ -524,3 +524,40 @@ Proof. reflexivity. Qed.
 Lemma reseed_n_8 x0 x1 x2 x3 a b c d :
   reseed_n [x0; x1; x2; x3; a; b; c; d] = sint16 (Z.lxor c a + 256 * Z.lxor d b).
 Proof. reflexivity. Qed.
+
+(* ------------------------------------------------------------------ *)
+(* arguments in variables: the generator never changes them, so the same variable is the same argument *)
+
+Lemma vstep_store s st o : snd (fst (vstep s st o)) = st.
+Proof. unfold vstep. destruct (step s (vop_op st o)) as [s' out]. reflexivity. Qed.
+
+Lemma vexec_store ops : forall s st, snd (vexec s st ops) = st.
+Proof.
+  induction ops as [|o r IH]; intros s st; cbn [vexec]; [reflexivity|].
+  pose proof (vstep_store s st o) as H.
+  destruct (vstep s st o) as [[s' st'] out]. cbn [fst snd] in H. subst st'. apply IH.
+Qed.
+
+Lemma vexec_exec ops : forall s st, fst (vexec s st ops) = exec s (map (vop_op st) ops).
+Proof.
+  induction ops as [|o r IH]; intros s st; cbn [vexec map exec]; [reflexivity|].
+  unfold vstep. destruct (step s (vop_op st o)) as [s' out]. cbn [fst]. apply IH.
+Qed.
+
+(* RND(X) with a negative X, after any history h (which may itself use X any number of times):
+   same result as at the very beginning, and X is still what it was *)
+Lemma same_variable_reseeds st i f h s1 s2 :
+  to_single (var_get st i) = Ok f -> sng_is_zero f = false -> sng_is_neg f = true ->
+  let '(s', st') := vexec s1 st h in
+  st' = st /\
+  vstep s' st' (VRnd i) =
+    ((rnd_cycle (sng_mant f), st), Ok (rnd_bytes (rnd_cycle (sng_mant f)))) /\
+  snd (vstep s' st' (VRnd i)) = snd (vstep s2 st (VRnd i)).
+Proof.
+  intros Hf Hz Hn. pose proof (vexec_store h s1 st) as Hst.
+  destruct (vexec s1 st h) as [s' st']. cbn [snd] in Hst. subst st'.
+  split; [reflexivity|].
+  unfold vstep, vop_op. cbn [step].
+  rewrite (rnd_negative_reseeds s' _ f Hf Hz Hn), (rnd_negative_reseeds s2 _ f Hf Hz Hn).
+  split; reflexivity.
+Qed.
